@@ -113,7 +113,7 @@ def judge(rec, rnd, tmp, k):
             b['rf'].rules.insert(pos, R.Rule('Shared small', 'contains("%s") and amount < %s' % (w, rnd.choice(['20', '100', '1000'])), 'Transport', 'Fuel',
                                              merchant='Shared Merchant'))
         rec.count('budgets_with_merchant_fed_by_several_rules')
-    if b['rules_kind'] == 'rules' and rnd.random() < .3:
+    if b['rules_kind'] == 'rules' and rnd.random() < .5:
         # merchants whose names differ only in letter case are different merchants (explain looks names up exactly first)
         w = rnd.choice(['S0', 'S1', 'NETFLIX', 'COSTCO', 'UBER'])
         pos = rnd.randint(0, len(b['rf'].rules))
